@@ -11,22 +11,27 @@ from fractions import Fraction
 from lib.core import zlit, zlist, natlit
 
 MANIFEST = {
-    'text': 'Coq theorems over a bit-tape model of every function of mpyc/random.py, for ALL tapes (fuel/tape exhaustion '
-            'excluded): _randbelow < n, random_unit_vector has length n with exactly one 1, shuffle/random_permutation return '
-            'a permutation, random_derangement has no fixed point and is a permutation, sample (population branch) is a '
-            'sub-selection, sample (range branch) is duplicate-free and on the range lattice, randrange/randint lie on the '
-            'range lattice, choice returns a member, getrandbits/random < 2^k, uniform in [a,b) for a<b; uniformity by counting: '
-            'one k-bit pass of _randbelow accepts exactly the tapes encoding 0..n-1 and returns that value (one tape per '
-            'value), and a rejection at bit i is decided by bits >= i only. Model tied to the code on every run by exhaustive '
-            'tape-tree enumeration through the real functions (n<=12 randbelow/unit vectors, n<=4 shuffles/derangements, '
-            'populations<=4), exact comparison of values and consumed bits, and exact flat-histogram counting.',
+    'text': 'Coq theorems over a bit-tape model of every function of mpyc/random.py, for ALL tapes and all n (tape/fuel exhaustion '
+            'excluded): randbelow_range (0 <= _randbelow < n, fast path and rejection loop; bits variant too), '
+            'unit_vector_shape/onehot (length n, exactly one 1), shuffle_perm (= random_permutation: a Permutation of the input), '
+            'derangement_no_fixed_point (Permutation and y[i] <> x[i] everywhere), sample_pop_subselection, choice_member, '
+            'randrange_lattice/within, getrandbits_range (= random as scaled integer), uniform_within (a <= N < b for a < b), '
+            'uniform_bounds_refuted (a = b). Uniformity by counting: randbelow_one_pass_bounded_partial (n <= 64, bound in the '
+            'statement: a k-bit one-pass tape is accepted iff it encodes v < n and returns v; one accepting tape per value) and '
+            'rejection_ignores_retained_bits (all n: the bits kept on restart are not inspected by the rejecting pass). Model tied to '
+            'the code on every run by exhaustive tape-tree enumeration through the real functions with the bit source substituted '
+            'from outside (n<=12 randbelow/unit vectors, n<=4 shuffles/derangements, populations<=4; secint, secfxp, secfld), exact '
+            'comparison of values and consumed bits, and exact weighted histogram counting (flat / proportional to weights).',
     'note': 'Trusted: Coq kernel + vm_compute; the hand-written model (value level: secure numbers are their integer values; '
             'runtime.in_prod/scalar_mul/vector_add/prod/from_bits modelled as exact integer arithmetic; single party, no_async); '
-            'random_bits is a tape oracle, its own uniformity is C01/C15 not this check. Uniformity across restarts and for '
-            'shuffle/derangement/choices is checked by exact counting on the implementation and model for small n only '
-            '(not a Coq theorem): randbelow_uniform over r restarts, shuffle_uniform, derangement_uniform, choices weights '
-            'are MISSING as theorems. np_random_unit_vector is not modelled (no NumPy in this venv). Known finding F-C33-1: '
-            'uniform(sectype,a,b) with round(|a-b|*2^f)=0 returns a or a+2^-f (outside [a,b]).',
+            'random_bits is a tape oracle, its own uniformity is C01/C15 not this check. MISSING as theorems (covered only by the '
+            'exact counting on implementation+model for small n): unbounded randbelow one-pass kernel and randbelow_uniform over r '
+            'restarts, unit-vector uniformity, shuffle_uniform, derangement_uniform, choices weights, sample_range distinctness, '
+            'lists-of-lists shuffle permutation (model corresponded, not proved). np_random_unit_vector not modelled (no NumPy here). '
+            'Weighted choices are not applicable to secure fields (no <). _randbelow(st,1) returns the public int 0, so '
+            'randrange/uniform over a one-point range return public numbers (value correct; noted, not counted as violation). '
+            'Known findings: F-C33-1 uniform(a,b) with round(|a-b|*2^f)=0 returns a or a+2^-f; F-C33-2 choices(secfxp, weights) '
+            'returns non-members.',
     'technique': 'Coq proof over bit-tape model + exhaustive tape-tree correspondence and exact outcome counting',
 }
 
